@@ -130,7 +130,7 @@ theorem noPanicAt : ∀ n, NoPanicAt env n := by
       apply Outcome.bind_ne_panic (rdVarint_ne_panic bs); intro a _
       split
       · intro h; cases h
-      · apply Outcome.bind_ne_panic (blockCount_ne_panic _ _); intro b _
+      · apply Outcome.bind_ne_panic (arrayBlockCount_ne_panic _ _ _); intro b _
         apply Outcome.bind_ne_panic (h1 _ _ _ _); intro _ _; exact h2 _ _ _
     · -- readItems
       intro item k bs acc
